@@ -132,7 +132,9 @@ Inductive leaf :=
 | LLong (q : N) (body : list (nat * schar))  (* long literal: each content character may follow one or two quotes *)
 | LIri (body : str)                    (* <body> *)
 | LComment (body : str) (eol : N)      (* # body end-of-line *)
-| LEsc (d : N).                        (* backslash d *)
+| LEsc (d : N)                         (* backslash d *)
+| LOdd (c : N)                         (* a quote, <, or backslash at which no alternative matches: passed over *)
+| LCommentEnd (body : str).            (* # body, running to the end of the text *)
 
 Definition lchar_text (q : N) (x : nat * schar) : str := repeat q (fst x) ++ schar_text (snd x).
 Definition lchar_ok (q : N) (x : nat * schar) : bool := Nat.leb (fst x) 2 && schar_ok q (snd x).
@@ -145,17 +147,25 @@ Definition leaf_text (l : leaf) : str :=
   | LIri body => cLT :: body ++ [cGT]
   | LComment body eol => cHASH :: body ++ [eol]
   | LEsc d => [cBSL; d]
+  | LOdd c => [c]
+  | LCommentEnd body => cHASH :: body
   end.
 
-Definition leaf_ok (l : leaf) : bool :=
+(* [rest] is the text that follows the leaf: three leaves are what they are only in context *)
+Definition leaf_ok (l : leaf) (rest : str) : bool :=
   match l with
   | LPlain c => negb (existsb (N.eqb c) [cLBRACE; cRBRACE; cSQ; cDQ; cLT; cHASH; cBSL])
   | LStr q body => (N.eqb q cSQ || N.eqb q cDQ) && forallb (schar_ok q) body
-                   && match body with [] => false | _ => true end
+                   && match body, rest with [], c :: _ => negb (N.eqb c q) | _, _ => true end
+                      (* the empty literal must not be followed by a third quote *)
   | LLong q body => (N.eqb q cSQ || N.eqb q cDQ) && forallb (lchar_ok q) body
   | LIri body => forallb iri_char body
   | LComment body eol => forallb (fun c => negb (N.eqb c cLF || N.eqb c cCR)) body && (N.eqb eol cLF || N.eqb eol cCR)
   | LEsc d => negb (N.eqb d cLF)
+  | LOdd c => negb (N.eqb c cLBRACE) && negb (N.eqb c cRBRACE)
+              && match content_len c rest with None => true | Some _ => false end
+  | LCommentEnd body => forallb (fun c => negb (N.eqb c cLF || N.eqb c cCR)) body
+                        && match rest with [] => true | _ => false end
   end.
 
 Inductive tok := TLeaf (l : leaf) | TBlock (b : list tok).
@@ -177,11 +187,24 @@ Fixpoint tok_text (t : tok) : str :=
   | TBlock b => [cLBRACE] ++ flat_map tok_text b ++ [cRBRACE]
   end.
 
-Fixpoint tok_ok (t : tok) : bool :=
+Fixpoint tok_ok (t : tok) (rest : str) {struct t} : bool :=
   match t with
-  | TLeaf l => leaf_ok l
-  | TBlock b => forallb tok_ok b
+  | TLeaf l => leaf_ok l rest
+  | TBlock b => (fix go (l : list tok) : bool :=
+                   match l with
+                   | [] => true
+                   | x :: r => tok_ok x (flat_map tok_text r ++ cRBRACE :: rest) && go r
+                   end) b
   end.
+
+Fixpoint toks_ok (l : list tok) (rest : str) : bool :=
+  match l with
+  | [] => true
+  | x :: r => tok_ok x (flat_map tok_text r ++ rest) && toks_ok r rest
+  end.
+
+Lemma tok_ok_block b rest : tok_ok (TBlock b) rest = toks_ok b (cRBRACE :: rest).
+Proof. induction b as [|x r IH]; [reflexivity|]. cbn [tok_ok toks_ok] in *. rewrite IH. reflexivity. Qed.
 
 Fixpoint erase (t : tok) : elem :=
   match t with
@@ -193,6 +216,7 @@ Fixpoint erase (t : tok) : elem :=
 Fixpoint tok_items (t : tok) : list item :=
   match t with
   | TLeaf (LPlain c) => [IText c]
+  | TLeaf (LOdd c) => [IText c]
   | TLeaf l => [IContent (leaf_text l)]
   | TBlock b => IOpen :: flat_map tok_items b ++ [IClose]
   end.
@@ -279,10 +303,23 @@ Proof.
         cbn [option_map]; f_equal; lia.
 Qed.
 
-Lemma leaf_scan l rest : leaf_ok l = true ->
+Lemma string_len_empty q rest : match rest with c :: _ => N.eqb c q = false | [] => True end ->
+  string_len q (q :: rest) = option_map S (lit_len q (q :: rest)).
+Proof.
+  destruct rest as [|c3 r3]; intros H; [reflexivity|]. unfold string_len. rewrite H, andb_false_r. reflexivity.
+Qed.
+
+Lemma comment_len_end body : forallb (fun c => negb (N.eqb c cLF || N.eqb c cCR)) body = true ->
+  comment_len body = length body.
+Proof.
+  induction body as [|c r IH]; intros H; [reflexivity|]. simpl in H. apply andb_true_iff in H. destruct H as [Hc Hr].
+  apply negb_true_iff in Hc. cbn [comment_len length]. rewrite Hc, (IH Hr). reflexivity.
+Qed.
+
+Lemma leaf_scan l rest : leaf_ok l rest = true ->
   scan_aux 0 [] (leaf_text l ++ rest) = tok_items (TLeaf l) ++ scan_aux 0 [] rest.
 Proof.
-  destruct l as [c|q body|q body|body|body eol|d]; intros H; cbn [leaf_ok] in H.
+  destruct l as [c|q body|q body|body|body eol|d|c|body]; intros H; cbn [leaf_ok] in H.
   - (* plain *)
     cbn [leaf_text app tok_items]. unfold scan_aux. cbn [scan_gen].
     cbn [existsb] in H. rewrite !orb_false_r in H. apply negb_true_iff in H.
@@ -291,21 +328,24 @@ Proof.
     reflexivity.
   - (* string *)
     apply andb_true_iff in H. destruct H as [H Hne]. apply andb_true_iff in H. destruct H as [Hq Hb]. cbn [leaf_text tok_items].
-    assert (Hhead : match flat_map schar_text body ++ q :: rest with c :: _ => N.eqb c q = false | [] => True end).
-    { destruct body as [|[c|d] r]; [discriminate Hne| |]; cbn [flat_map schar_text app].
-      - cbn [forallb schar_ok] in Hb. apply andb_true_iff in Hb. destruct Hb as [Hb _].
+    assert (Hsl : string_len q (flat_map schar_text body ++ q :: rest)
+                  = option_map S (lit_len q (flat_map schar_text body ++ q :: rest))).
+    { destruct body as [|[c|d] r]; cbn [flat_map schar_text app].
+      - apply string_len_empty. destruct rest as [|c r]; [exact I|]. apply negb_true_iff. exact Hne.
+      - apply string_len_short. cbn [forallb schar_ok] in Hb. apply andb_true_iff in Hb. destruct Hb as [Hb _].
         apply andb_true_iff in Hb. destruct Hb as [Hb _]. apply negb_true_iff in Hb. exact Hb.
-      - apply orb_true_iff in Hq. destruct Hq as [Hq|Hq]; apply N.eqb_eq in Hq; subst q; reflexivity. }
+      - apply string_len_short.
+        apply orb_true_iff in Hq. destruct Hq as [Hq|Hq]; apply N.eqb_eq in Hq; subst q; reflexivity. }
     change ((q :: flat_map schar_text body ++ [q]) ++ rest) with (q :: (flat_map schar_text body ++ [q]) ++ rest).
     apply scan_content.
     + destruct (flat_map schar_text body); discriminate.
     + rewrite <- app_assoc. cbn [app]. unfold content_len.
       apply orb_true_iff in Hq. destruct Hq as [Hq|Hq]; apply N.eqb_eq in Hq; subst q.
-      * change (N.eqb cSQ cSQ) with true. cbv iota. rewrite (string_len_short _ _ Hhead).
+      * change (N.eqb cSQ cSQ) with true. cbv iota. rewrite Hsl.
         rewrite lit_len_body by (auto; reflexivity).
         cbn [option_map]. rewrite app_length. cbn [length]. rewrite Nat.add_1_r. reflexivity.
       * change (N.eqb cDQ cSQ) with false. change (N.eqb cDQ cDQ) with true. cbv iota.
-        rewrite (string_len_short _ _ Hhead). rewrite lit_len_body by (auto; reflexivity).
+        rewrite Hsl. rewrite lit_len_body by (auto; reflexivity).
         cbn [option_map]. rewrite app_length. cbn [length]. rewrite Nat.add_1_r. reflexivity.
     + apply orb_true_iff in Hq. destruct Hq as [Hq|Hq]; apply N.eqb_eq in Hq; subst q; reflexivity.
     + apply orb_true_iff in Hq. destruct Hq as [Hq|Hq]; apply N.eqb_eq in Hq; subst q; reflexivity.
@@ -349,33 +389,49 @@ Proof.
     cbn [app]. unfold content_len.
     change (N.eqb cBSL cSQ) with false. change (N.eqb cBSL cDQ) with false. change (N.eqb cBSL cLT) with false.
     change (N.eqb cBSL cHASH) with false. change (N.eqb cBSL cBSL) with true. cbv iota. rewrite H. reflexivity.
+  - (* a special character nothing matches at *)
+    apply andb_true_iff in H. destruct H as [H H3]. apply andb_true_iff in H. destruct H as [H1 H2].
+    apply negb_true_iff in H1, H2. cbn [leaf_text app tok_items]. unfold scan_aux. cbn [scan_gen].
+    rewrite H1, H2. destruct (content_len c rest); [discriminate|reflexivity].
+  - (* comment to the end of the text *)
+    apply andb_true_iff in H. destruct H as [Hb Hr]. destruct rest; [|discriminate]. cbn [leaf_text tok_items].
+    rewrite !app_nil_r. destruct body as [|b0 br].
+    + reflexivity.
+    + rewrite <- (app_nil_r (b0 :: br)) at 1. rewrite scan_content; try reflexivity; [discriminate|].
+      rewrite app_nil_r. unfold content_len.
+      change (N.eqb cHASH cSQ) with false. change (N.eqb cHASH cDQ) with false. change (N.eqb cHASH cLT) with false.
+      change (N.eqb cHASH cHASH) with true. cbv iota. rewrite (comment_len_end _ Hb). reflexivity.
 Qed.
 
-Lemma tok_scan : forall t rest, tok_ok t = true ->
+Lemma toks_scan_gen : forall l,
+  Forall (fun t => forall rest, tok_ok t rest = true ->
+            scan_aux 0 [] (tok_text t ++ rest) = tok_items t ++ scan_aux 0 [] rest) l ->
+  forall rest, toks_ok l rest = true ->
+  scan_aux 0 [] (flat_map tok_text l ++ rest) = flat_map tok_items l ++ scan_aux 0 [] rest.
+Proof.
+  induction l as [|x r IHl]; intros HF rest Hok; [reflexivity|].
+  inversion HF as [|? ? Hx Hr]; subst. cbn [toks_ok] in Hok. apply andb_true_iff in Hok. destruct Hok as [H1 H2].
+  cbn [flat_map]. rewrite <- !app_assoc. rewrite (Hx _ H1), (IHl Hr _ H2). reflexivity.
+Qed.
+
+Lemma tok_scan : forall t rest, tok_ok t rest = true ->
   scan_aux 0 [] (tok_text t ++ rest) = tok_items t ++ scan_aux 0 [] rest.
 Proof.
   induction t as [l|b IH] using tok_ind'; intros rest H.
   - apply leaf_scan. exact H.
-  - cbn [tok_text tok_items tok_ok] in *.
-    assert (Hlist : forall l, Forall (fun t => forall rest, tok_ok t = true ->
-                scan_aux 0 [] (tok_text t ++ rest) = tok_items t ++ scan_aux 0 [] rest) l ->
-              forallb tok_ok l = true -> forall rest',
-              scan_aux 0 [] (flat_map tok_text l ++ rest') = flat_map tok_items l ++ scan_aux 0 [] rest').
-    { induction l as [|x r IHl]; intros HF Hok rest'; [reflexivity|].
-      inversion HF as [|? ? Hx Hr]; subst. cbn [forallb] in Hok. apply andb_true_iff in Hok. destruct Hok as [H1 H2].
-      cbn [flat_map]. rewrite <- !app_assoc. rewrite (Hx _ H1), (IHl Hr H2). reflexivity. }
+  - rewrite tok_ok_block in H. cbn [tok_text tok_items].
     rewrite <- !app_assoc. cbn [app]. unfold scan_aux at 1. cbn [scan_gen]. fold scan_aux.
     change (N.eqb cLBRACE cLBRACE) with true. cbv iota.
-    rewrite (Hlist b IH H). cbn [app]. unfold scan_aux at 1. cbn [scan_gen]. fold scan_aux.
+    rewrite (toks_scan_gen b IH _ H). unfold scan_aux at 2. cbn [scan_gen]. fold scan_aux.
     change (N.eqb cRBRACE cLBRACE) with false. change (N.eqb cRBRACE cRBRACE) with true. cbv iota.
     rewrite <- app_assoc. reflexivity.
 Qed.
 
-Lemma toks_scan l : forallb tok_ok l = true -> scan (flat_map tok_text l) = flat_map tok_items l.
+Lemma toks_scan l : toks_ok l [] = true -> scan (flat_map tok_text l) = flat_map tok_items l.
 Proof.
-  intros H. unfold scan. induction l as [|x r IH]; [reflexivity|].
-  cbn [forallb] in H. apply andb_true_iff in H. destruct H as [H1 H2].
-  cbn [flat_map]. rewrite tok_scan by exact H1. rewrite (IH H2). reflexivity.
+  intros H. unfold scan. rewrite <- (app_nil_r (flat_map tok_text l)).
+  rewrite (toks_scan_gen l) with (rest := []); [apply app_nil_r| |exact H].
+  apply Forall_forall. intros t _. apply tok_scan.
 Qed.
 
 (* the loop treats a passed-over character like a one-character content match *)
@@ -408,7 +464,7 @@ Qed.
    blocks nested to any depth, short string literals in either quote style with
    any characters (braces, the other quote, escapes) inside, IRIs, comments,
    escaped characters, other characters - wraps exactly the top-level blocks *)
-Theorem insert_named_graph_wraps g l : forallb tok_ok l = true ->
+Theorem insert_named_graph_wraps g l : toks_ok l [] = true ->
   insert_named_graph g (flat_map tok_text l) = wrap_spec g (map erase l)
   /\ render (map erase l) = flat_map tok_text l.
 Proof.
@@ -449,3 +505,14 @@ Lemma long_string_refuted :
   /\ insert_named_graph ex_graph ([cLBRACE] ++ bad_lit ++ [cRBRACE])
      = [cLBRACE] ++ graph_open ex_graph ++ bad_lit ++ graph_close ++ [cRBRACE].
 Proof. split; [vm_compute; discriminate|vm_compute; reflexivity]. Qed.
+
+(* W { ?o < 3 . ?s ?p "" } #{ *)
+Definition ex_toks2 : list tok :=
+  [TLeaf (LPlain 87); TLeaf (LPlain 32);
+   TBlock (map TLeaf ([LPlain 32; LPlain 63; LPlain 111; LPlain 32; LOdd 60; LPlain 32; LPlain 51; LPlain 32; LPlain 46;
+                       LPlain 32; LPlain 63; LPlain 115; LPlain 32; LPlain 63; LPlain 112; LPlain 32; LStr 34 []; LPlain 32]));
+   TLeaf (LPlain 32); TLeaf (LCommentEnd [123])].
+Definition ex_out2 : str :=
+  [87; 32; 123] ++ [32; 71; 82; 65; 80; 72; 32; 60; 103; 62; 32; 123]
+  ++ [32; 63; 111; 32; 60; 32; 51; 32; 46; 32; 63; 115; 32; 63; 112; 32; 34; 34; 32] ++ [125; 32] ++ [125]
+  ++ [32; 35; 123].
